@@ -102,8 +102,8 @@ Section Api.
   Qed.
 
   (* ---------------------------------------------------------------- basis.py *)
-  Lemma sat_api_to_incremental f is_inc cells :
-    sat h0 (api_to_incremental f is_inc cells)
+  Lemma sat_api_to_incremental f c is_inc cells :
+    sat h0 (api_to_incremental f c is_inc cells)
         (fun r => if is_inc then r = cells else Forall (fresh h0) r).
   Proof.
     unfold api_to_incremental. destruct is_inc; [apply sat_ret; auto|].
@@ -131,7 +131,7 @@ Section Api.
     eapply sat_bind; [apply sat_summarize_cell_values|]. intros d _.
     eapply sat_bind; [apply sat_new_dict|]. intros; apply sat_new_cell.
   Qed.
-  Lemma sat_api_blend f tris picks : sat h0 (api_blend f tris picks) (Forall (fresh h0)).
+  Lemma sat_api_blend f c tris picks : sat h0 (api_blend f c tris picks) (Forall (fresh h0)).
   Proof.
     unfold api_blend. destruct tris as [|t0 rest]; [apply sat_raise|].
     destruct (negb _); [apply sat_raise|].
